@@ -116,11 +116,33 @@ def coordDict (pom : Pom) (n : Str) : Option Str :=
   else if n = "project.version".toList ∨ n = "pom.version".toList then (if pom.projVersion = [] then none else some pom.projVersion)
   else none
 
-/-- `OriginalDependency`: first dependency with the update's key — as written, or as `ResolvedKey` has it — and a
-non-empty version -/
+def attrOrigin (o : Str) : Str := if sManagement.isSuffixOf o then sManagement else []
+
+/-- the score `OriginalDependency` gives a declaration with the update's key (fix b0b162fc): 2 when it is a dependencyManagement
+declaration exactly if the update is for a dependencyManagement requirement, plus 1 when its version as written is the version
+the update starts from; `none`: a dependencyManagement requirement is never matched with a declaration outside dependencyManagement.
+(The code tests `origin == "management" || HasSuffix(origin, "@management")`; origins are joined with "@", so that is this suffix test.) -/
+def matchScore (u : Upd) (d : Dep) : Option Nat :=
+  let mgmt : Bool := attrOrigin d.origin = sManagement
+  let want : Bool := u.origin = sManagement
+  if mgmt != want && want then none
+  else some ((if mgmt == want then 2 else 0) + (if u.frm ≠ [] && d.ver = u.frm then 1 else 0))
+
+def scoreVal (u : Upd) (d : Dep) : Nat := (matchScore u d).getD 0
+
+/-- the best-scoring declaration, the first one among equals -/
+def pickBest (u : Upd) : List Dep → Option Dep
+  | [] => none
+  | d :: ds =>
+    match pickBest u ds with
+    | some e => if scoreVal u e > scoreVal u d then some e else some d
+    | none => some d
+
+/-- `OriginalDependency`: among the declarations with the update's key — as written, or as `ResolvedKey` has it — and a
+non-empty version, the one the update is for: by kind of requirement and current version (fix b0b162fc; it was the first) -/
 def originalDependency (σ : Str → Option Str) (u : Upd) (deps : List Dep) : Option Dep :=
   if u.ga.isNone then none                       -- `len(IDs) != 2`: the empty DependencyWithOrigin
-  else deps.find? fun d => (d.key = u.key || interpKey σ d = u.key) && d.ver ≠ []
+  else pickBest u (deps.filter fun d => (d.key = u.key || interpKey σ d = u.key) && d.ver ≠ [] && (matchScore u d).isSome)
 
 def hasPrefix (p s : Str) : Bool := p.isPrefixOf s
 
@@ -225,8 +247,6 @@ def resolvable (σ : Str → Option Str) : Nat → Str → Bool
       match indexOf closeBrace after with
       | none => true
       | some e => (σ (after.take e)).isSome && resolvable σ fuel (after.drop (e + 1))
-
-def attrOrigin (o : Str) : Str := if sManagement.isSuffixOf o then sManagement else []
 
 def keyResolvable (σ : Str → Option Str) (d : Dep) : Bool :=
   resolvable σ (d.g.length + 1) d.g && resolvable σ (d.a.length + 1) d.a &&
